@@ -111,7 +111,7 @@ func c12LineComparable(ic bool, l []byte) bool {
 	if !ic {
 		return true
 	}
-	return !bytes.Contains(l, []byte("K")) && !bytes.Contains(l, []byte("ſ"))
+	return !bytes.Contains(l, []byte("\u212a")) && !bytes.Contains(l, []byte("\u017f"))
 }
 
 func c12Lazy(ic bool, pre []byte, keys, lits [][]byte, lines [][]byte) string {
@@ -200,7 +200,7 @@ func c12GenLazyLine(r *Rand, p c12Pat, ic bool) []byte {
 	alpha = append(alpha, p.pre)
 	alpha = append(alpha, p.lits...)
 	if r.Chance(1, 6) {
-		alpha = append(alpha, "x", "é", "\xc3", "K", "K", "ſ", "S")
+		alpha = append(alpha, "x", "é", "\xc3", "K", "\u212a", "\u017f", "S")
 	}
 	var sb strings.Builder
 	junk := func(max int) {
@@ -411,7 +411,7 @@ func c12CorpusLazy() []string {
 		// literals that would have to overlap: no reading
 		lz(false, "ab", []string{"v"}, []string{"ba"}, "aba", "abba", "ababa", "abab"),
 		// skipped tokens, token to the end of the line, ignore-case
-		lz(true, "A", []string{"x", "", "y"}, []string{"b", "a", ""}, "aBa", "AbBaAb", "ab", "ba", "KabK"),
+		lz(true, "A", []string{"x", "", "y"}, []string{"b", "a", ""}, "aBa", "AbBaAb", "ab", "ba", "Kab\u212a"),
 		lz(false, "é=", []string{"x", "?s"}, []string{"é", "="}, "é=1é2=3", "\xc3é=é=", "é=\xa9="),
 		lz(false, "", nil, nil, "", "abc"), lz(false, "ab", nil, nil, "xxab", "a"),
 	}
